@@ -48,6 +48,21 @@ type caseDesc struct {
 // lastDesc is the description of the case being run (for panic reports).
 var lastDesc *caseDesc
 
+// panicMatch gives a recovered panic structural fields a known-finding entry
+// can match on.
+func panicMatch(msg string) map[string]any {
+	m := map[string]any{"message": msg}
+	if d := lastDesc; d != nil {
+		m["kind"] = d.Kind
+		m["format"] = d.Options.Format
+		m["keyspace"] = d.Options.KeySpace
+		m["points"] = d.Points
+		m["synthetic_prefix"] = d.Prefix != ""
+		m["columnar"] = d.Options.Format >= "(Pebble,v5)"
+	}
+	return m
+}
+
 func violate(r *vcommon.Report, d *caseDesc, class, detail string, mm *sstmodel.Mismatch) {
 	kind := ""
 	if mm != nil {
@@ -498,7 +513,7 @@ func TestVerifC29(t *testing.T) {
 	r.Cases(n, func(i int, rng *rand.Rand) {
 		if msg, stack := sstmodel.Guard(func() { runTransformCase(r, i, rng) }); msg != "" {
 			r.Violate("panic", "panic: "+msg, map[string]any{"case": i, "panic": msg, "stack": stack, "desc": lastDesc,
-				"replay_hint": fmt.Sprintf("VERIF_SEED=%d VERIF_ONLY_CASE=%d", vcommon.Seed(), i)}, map[string]any{"message": msg})
+				"replay_hint": fmt.Sprintf("VERIF_SEED=%d VERIF_ONLY_CASE=%d", vcommon.Seed(), i)}, panicMatch(msg))
 			// A recovered panic leaks open iterators; in invariants builds their pool
 			// finalizers exit the process at the next GC. Persist the report now.
 			r.Finish(t)
@@ -762,7 +777,7 @@ func TestVerifC29Copy(t *testing.T) {
 	r.Cases(n, func(i int, rng *rand.Rand) {
 		if msg, stack := sstmodel.Guard(func() { runCopyCase(r, i, rng) }); msg != "" {
 			r.Violate("panic", "panic: "+msg, map[string]any{"case": i, "panic": msg, "stack": stack, "desc": lastDesc,
-				"replay_hint": fmt.Sprintf("VERIF_SEED=%d VERIF_ONLY_CASE=%d", vcommon.Seed(), i)}, map[string]any{"message": msg})
+				"replay_hint": fmt.Sprintf("VERIF_SEED=%d VERIF_ONLY_CASE=%d", vcommon.Seed(), i)}, panicMatch(msg))
 			// A recovered panic leaks open iterators; in invariants builds their pool
 			// finalizers exit the process at the next GC. Persist the report now.
 			r.Finish(t)
